@@ -139,9 +139,25 @@ def prepare_push_source(op, out):
     raise env.HarnessError("bad push source kind %r" % kind)
 
 
+class FailingBytesIO(io.BytesIO):
+    """A destination whose write() starts failing (disk full) after `ok_writes` successful writes."""
+
+    def __init__(self, ok_writes):
+        io.BytesIO.__init__(self)
+        self.ok_writes = ok_writes
+
+    def write(self, data):
+        if self.ok_writes <= 0:
+            raise OSError(28, "No space left on device (injected)")
+        self.ok_writes -= 1
+        return io.BytesIO.write(self, data)
+
+
 def prepare_pull_dest(op, out):
     if op.get("dest", "bytesio") == "bytesio":
         return io.BytesIO()
+    if op.get("dest") == "failing":
+        return FailingBytesIO(op.get("fail_after", 1))
     if out.tmpdir is None:
         out.tmpdir = tempfile.mkdtemp(prefix="advf-")
     return os.path.join(out.tmpdir, "pull-%d.bin" % len(os.listdir(out.tmpdir)))
